@@ -33,6 +33,52 @@ func copyItem(item map[string]*types.Item) map[string]*types.Item {
 	return copy
 }
 
+// checkNumbers refuses an attribute value of type N, or a member of a number set, that is no
+// number DynamoDB can hold (see checkNumberKey), at any depth of the values
+func checkNumbers(values map[string]*types.Item) error {
+	for name, value := range values {
+		if err := checkNumbersIn(value, name); err != nil {
+			return err
+		}
+	}
+
+	return nil
+}
+
+func checkNumbersIn(value *types.Item, name string) error {
+	if value == nil {
+		return nil
+	}
+
+	if value.N != nil {
+		if err := checkNumberKey(*value.N, name, "N"); err != nil {
+			return err
+		}
+	}
+
+	for _, member := range value.NS {
+		if member != nil {
+			if err := checkNumberKey(*member, name, "N"); err != nil {
+				return err
+			}
+		}
+	}
+
+	for _, element := range value.L {
+		if err := checkNumbersIn(element, name); err != nil {
+			return err
+		}
+	}
+
+	for _, member := range value.M {
+		if err := checkNumbersIn(member, name); err != nil {
+			return err
+		}
+	}
+
+	return nil
+}
+
 // deepCopyItem copies the item with all its values: nothing of the copy can be reached from the original
 func deepCopyItem(item map[string]*types.Item) map[string]*types.Item {
 	copy := make(map[string]*types.Item, len(item))
